@@ -252,7 +252,7 @@ func TestC03(t *testing.T) {
 	depth := vk.Pick(run, 4, 6)
 	run.Set("depth", depth)
 	a := evAlpha{Invalid: true, Skips: []int{2, 3}, Head: true, Advance: []int{40, 7200}, Errors: true, Prefix: true}
-	dl := vk.NewDeadline(vk.Pick(run, 10*time.Minute, 120*time.Minute))
+	dl := vk.NewDeadline(vk.Pick(run, 10*time.Minute, 45*time.Minute))
 	states, trans := 0, 0
 	for _, cfg := range c03Configs(run) {
 		cfg := cfg
